@@ -229,9 +229,12 @@ class Run:
         unconfirmed = []
         n_task_replays = 0
         printed = set()
+        t_confirm = time.time()
         for v in self.violations:
             if len(unconfirmed) >= 40 and not confirmed:
                 break
+            if confirmed and time.time() - t_confirm > 120:
+                break  # replays of this kind are slow (e.g. each one waits for a stall to be declared): enough have been confirmed
             if self.module is not None and hasattr(self.module, "run_case") and len(confirmed) < 25:
                 try:
                     # (in fresh forks, like the tasks themselves: the parent process never executes library operations,
